@@ -279,6 +279,9 @@ func (r *Runner) runReal(st Step, id int64) *RealResult {
 		}
 	})
 	ex := r.ex.WithContext(ctx)
+	if st.PreCancel {
+		cancel()
+	}
 	entry := st.Entry
 	if r.fire && entry%2 == 0 {
 		entry++ // blocking needs the Execution: use the WithExecution variant
